@@ -58,6 +58,35 @@ def _kind(fn, t) -> str:
     return "VALUE"
 
 
+def _canon_val(t):
+    """Success values compared across modes: d.get(k) on a path where it is not None is d[k]."""
+    if not isinstance(t, tuple):
+        return t
+    if op(t) == "call" and op(t[1]) == "attr" and t[1][2] == "get" and len(t[2]) == 1 and not t[3]:
+        return ("item", _canon_val(t[1][1]), _canon_val(t[2][0]))
+    return tuple(_canon_val(x) if isinstance(x, tuple) else x for x in t)
+
+
+def _unchanged_input(cx: Cx, fn, line: int) -> bool:
+    """Is the input returned at ``line`` only where its parts were found equal to their converted counterparts
+    (an "already in normal form" shortcut)?  Then the echo IS the success value."""
+    s = cx.summary(fn)
+    inputs = {("param", p.name) for p in fn.params if p.name not in FLAGS and p.name != fn.self_name}
+    ctxs = [ctx for t, ctx in s.returns() if ctx.path.out is not None and ctx.path.out[2] == line and t in inputs]
+    if not ctxs:
+        return False
+
+    def part_eq(g):
+        if g.kind != "guard" or g.b is not True or op(g.a) != "cmp" or g.a[1] != "==":
+            return False
+        for x in (g.a[2], g.a[3]):
+            if op(x) == "item" and op(x[1]) == "call" and op(x[1][1]) == "attr" and x[1][1][2] in ("partition", "split") and x[1][1][1] in inputs:
+                return True
+        return False
+
+    return all(sum(1 for g in ctx.guards if part_eq(g)) >= 2 for ctx in ctxs)
+
+
 def mode_rows(cx: Cx, names: list[str], ob_id: str):
     mode = Mode(cx)
     for name in names:
@@ -117,14 +146,17 @@ def check_tails(cx: Cx, ob: Ob, names: list[str]) -> None:
         by = {tuple(sorted(A.items())): res for A, res in rows}
         base_key = tuple(sorted({f: False for f in dict(rows[0][0])}.items()))
         base = by[base_key]
-        base_vals = {strip_flags(t, {}) for t, _ in base.returns if _kind(fn, t) == "VALUE"}
+        base_vals = {_canon_val(strip_flags(t, {})) for t, _ in base.returns if _kind(fn, t) == "VALUE"}
         has_pt = fn.param("passthrough") is not None
         has_strict = fn.param("strict") is not None
         for A, res in rows:
             kinds = {}
             for t, line in res.returns:
-                kinds.setdefault(_kind(fn, t), []).append((t, line))
-            vals = {strip_flags(t, {}) for t, _ in kinds.get("VALUE", [])}
+                k_ = _kind(fn, t)
+                if k_ == "ECHO" and _unchanged_input(cx, fn, line):
+                    k_ = "UNCHANGED"  # the input returned where it already equals the converted form
+                kinds.setdefault(k_, []).append((t, line))
+            vals = {_canon_val(strip_flags(t, {})) for t, _ in kinds.get("VALUE", [])}
             ob.site(f"{fn.where} {fn.qualname}", f"{A} returns={sorted(kinds)}")
             strict = A.get("strict", False)
             pt = A.get("passthrough", False)
